@@ -65,6 +65,7 @@ _OOO_NAMESPACES = {
     "xsi": "http://www.w3.org/2001/XMLSchema-instance",
 }
 _NUMBER_COLUMNS_REPEATED = "{" + _OOO_NAMESPACES["table"] + "}number-columns-repeated"
+_NUMBER_ROWS_REPEATED = "{" + _OOO_NAMESPACES["table"] + "}number-rows-repeated"
 _TEXT_C = "{" + _OOO_NAMESPACES["text"] + "}c"
 _TEXT_LINE_BREAK = "{" + _OOO_NAMESPACES["text"] + "}line-break"
 _TEXT_S = "{" + _OOO_NAMESPACES["text"] + "}s"
@@ -260,7 +261,9 @@ def _ods_text(element, location):
 
 def ods_rows(source_ods_path, sheet=1):
     """
-    Rows stored in ODS document ``source_ods_path`` in ``sheet``.
+    Rows stored in ODS document ``source_ods_path`` in ``sheet``. Empty rows
+    at the end of the sheet are skipped because spreadsheet applications tend
+    to pad sheets with a huge number of them.
 
     :raises cutplace.errors.DataFormarError: if ``source_ods_path`` is not \
       a valid ODS file.
@@ -306,7 +309,11 @@ def ods_rows(source_ods_path, sheet=1):
     location = errors.Location(source_ods_path, has_cell=True, has_sheet=True)
     for _ in range(sheet - 1):
         location.advance_sheet()
+    # Rows (and how often to repeat them) not yielded yet. Empty rows are held back until a non empty row
+    # follows in order to skip the huge runs of empty rows spreadsheet applications pad sheets with.
+    pending_rows = []
     for table_row in _findall(table_element, "table:table-row", namespaces=_OOO_NAMESPACES):
+        row_repeated_count = _ods_repeat_count(table_row, _NUMBER_ROWS_REPEATED, location)
         row = []
         for table_cell in _findall(table_row, "table:table-cell", namespaces=_OOO_NAMESPACES):
             repeated_count = _ods_repeat_count(table_cell, _NUMBER_COLUMNS_REPEATED, location)
@@ -314,8 +321,13 @@ def ods_rows(source_ods_path, sheet=1):
             cell_value = "\n".join(_ods_text(text_p, location) for text_p in text_ps)
             row.extend([cell_value] * repeated_count)
             location.advance_cell(repeated_count)
-        yield row
-        location.advance_line()
+        pending_rows.append((row, row_repeated_count))
+        if any(cell_value != "" for cell_value in row):
+            for pending_row, pending_count in pending_rows:
+                for _ in range(pending_count):
+                    yield list(pending_row)
+            pending_rows = []
+        location.advance_line(row_repeated_count)
 
 
 def fixed_rows(fixed_source, encoding, field_name_and_lengths, line_delimiter="any"):
